@@ -331,25 +331,27 @@ Definition globals := list (ident * ginit).
    name is not yet declared this only happens to a name used earlier as a for-loop variable, which C scopes to
    the loop) *)
 Definition ttres := option (tenv * store * globals * list stmt * bool * bool).
+Definition gsplit (closed_only : bool) (s : stmt) (te : tenv) (st : store) (seen : list ident) (r1 : list stmt)
+  : globals * list stmt * bool :=
+  match s with
+  | SAssign x e =>
+      let c := view st te in
+      if bound x te then ([], r1, true)                  (* already declared: a plain run-time assignment *)
+      else if is_cval (eval_const c e) && (negb closed_only || negb (has_name e))
+           then ([(x, GStatic e)], [],
+                 negb (binds_safe_name c) && in_guard [] e && negb (tmem x seen) && negb (tmem x safe_name_references))
+           else ([(x, GDefault)], r1, true)
+  | _ => ([], r1, true)
+  end.
 Fixpoint ttop_gen (closed_only : bool) (b : list stmt) (te : tenv) (st : store) (seen : list ident) {struct b} : ttres :=
   match b with
   | [] => Some (te, st, [], [], true, true)
   | s :: r =>
       match tstep s te st with
       | Some (te1, st1, r1, f1) =>
-          let c := view st te in
-          let '(g1, body1, h1) :=
-            match s with
-            | SAssign x e =>
-                if bound x te then ([], r1, true)
-                else if is_cval (eval_const c e) && (negb closed_only || negb (has_name e))
-                     then ([(x, GStatic e)], [],
-                           negb (binds_safe_name c) && in_guard [] e && negb (tmem x seen)
-                           && negb (tmem x safe_name_references))
-                     else ([(x, GDefault)], r1, true)
-            | _ => ([], r1, true)
-            end in
-          match ttop_gen closed_only r te1 st1 (writes_block r1 ++ seen) with
+          let '(g1, body1, h1) := gsplit closed_only s te st seen r1 in
+          (* names written so far (the residual writes what the source writes) *)
+          match ttop_gen closed_only r te1 st1 (writes s ++ writes_block r1 ++ seen) with
           | Some (te2, st2, g2, body2, f2, h2) => Some (te2, st2, g1 ++ g2, body1 ++ body2, f1 && f2, h1 && h2)
           | None => None end
       | None => None end
